@@ -167,6 +167,7 @@ sys.path.insert(0, os.environ.get('VERIF_REPO', '/repo'))
 exec(BODY)
 
 STARTS = [0, 1, 2.5, 0.5, 10]
+STARTS_THOROUGH = STARTS + [0.1, 3.3, 100, 7.25, 0.05]
 DTS = [('1', False), ('0.5', False), ('0.25', False), ('0.125', False), ('0.1', False), ('0.05', False), ('0.2', False), ('0.3', False), ('0.01', False),
        ('0.4', False), ('2', True), ('4', True), ('8', True), ('3', True), ('5', True), ('10', True), ('7', True), ('16', True)]
 
@@ -174,9 +175,9 @@ DTS = [('1', False), ('0.5', False), ('0.25', False), ('0.125', False), ('0.1', 
 def cases(rnd, thorough):
     out = []
     for (dt_text, rec) in DTS:
-        for start in STARTS:
+        for start in (STARTS_THOROUGH if thorough else STARTS):
             dt = (1.0 / int(dt_text)) if rec else float(dt_text)
-            n = 40 if dt >= 0.05 else 120
+            n = (40 if dt >= 0.05 else 120) * (5 if thorough else 1)
             stop = round(start + n * dt, 10) if not rec else start + max(1, round(n * dt))
             for model in ('tank', 'chain'):
                 out.append((model, start, stop, dt_text, rec))
@@ -222,7 +223,7 @@ def main():
             report('bptk_%s' % case[0], 'run_bptk', case, bad)
     # 2. run-spec enumeration + DSL equivalence
     seen_kinds = set()
-    for case in cases(rnd, False):
+    for case in cases(rnd, hint.get('tier') == 'thorough'):
         if time.time() > t_end or len([f for f in failures if not f['known']]) >= 2:
             break
         for fn in ((run, run_dsl) if case[0] == 'tank' else (run,)):
